@@ -20,7 +20,7 @@ EXPLANATION = (
     "Numeric correctness of LEB128/zig-zag and value equality after decoding are NOT decided.")
 
 NOT_DECIDED = [
-    "arithmetic of varint / zig-zag at the boundaries; equality of decoded collections; byte-exact consumption (follows from shape equality only if primitives round-trip)",
+    "arithmetic of the (non-const) varint READERS at the boundaries (the const encoders and zig-zag are decided by the C12.g witness); equality of decoded collections; byte-exact consumption (follows from shape equality only if primitives round-trip)",
     "which variant a tag is decoded into when several variants carry the same field types (variant correspondence is checked only through the emitted tag constants)",
 ]
 ASSUMPTIONS = ["user types implementing ToOwned encode like their Owned form (checked for str/String, [T]/Vec<T>, Path/PathBuf)"]
